@@ -335,21 +335,26 @@ pub fn run_small(r: &mut Rng, dir: &str, n: usize, out: &mut Out) {
         for t in 0..nt {
             for (i, (p, l)) in reqs[t].iter().enumerate() {
                 let (p, l) = (*p as usize, *l as usize);
-                let want = if l == 0 { Some(vec![]) } else if p + l <= len { Some(content[p..p + l].to_vec()) } else { None };
+                // FileStorage::read run alone: a range beyond the file is an error (also an empty one), else the bytes
+                let want = if p + l <= len { Some(content[p..p + l].to_vec()) } else { None };
                 if results[t][i] != want {
                     let cls = if results[t][i].is_none() { "conc-error" } else { "conc-mismatch" };
                     out.oracle.push(format!("{} small thread={} read=({},{}) sequential={} concurrent={} {}", cls, t, p, l, show_res(&want), show_res(&results[t][i]), desc));
                 }
             }
         }
-        // the log of every thread must have the shape (L D? E | C E)*; otherwise a hook event was lost in the
-        // window between the hook being taken out and re-installing itself: the case is not replayed
+        // the log of every thread must have the shape (L D? E | C E | E)* with a bare E exactly for the reads beyond the
+        // file (rejected before the lock); otherwise a hook event was lost in the window between the hook being taken
+        // out and re-installing itself: the case is not replayed
         let mut complete = true;
-        let (mut nl, mut nc) = (0u64, 0u64);
+        let (mut nl, mut nc, mut nb) = (0u64, 0u64, 0u64);
         for t in 0..nt {
             let mine: Vec<char> = events.iter().filter(|(_, u)| *u == t as u32).map(|(k, _)| *k).collect();
             let mut j = 0;
             for i in 0..reqs[t].len() {
+                if reqs[t][i].0 + reqs[t][i].1 > len as u64 {
+                    if mine.get(j) == Some(&'E') { j += 1; nb += 1; continue; } else { complete = false; break; }
+                }
                 match mine.get(j) {
                     Some('L') => { nl += 1; j += 1; if mine.get(j) == Some(&'D') { j += 1; } else if results[t][i].is_some() { complete = false; } }
                     Some('C') => { nc += 1; j += 1; }
@@ -365,6 +370,7 @@ pub fn run_small(r: &mut Rng, dir: &str, n: usize, out: &mut Out) {
         out.add("small:cases-replayed", 1);
         out.add("small:reads-locked", nl);
         out.add("small:reads-contended", nc);
+        out.add("small:reads-beyond-the-file (rejected before the lock)", nb);
         out.add(&format!("small:threads-{}", nt), 1);
         if nl >= 1 && nc >= 1 { out.nontrivial += 1; out.add("small:cases-with-locked-and-contended-reads", 1); }
         let reqs_s = reqs.iter().map(|l| format!("({})", l.iter().map(|(p, n)| format!("({:x} {:x})", p, n)).collect::<Vec<_>>().join(" "))).collect::<Vec<_>>().join(" ");
